@@ -1,12 +1,16 @@
 import Qhttp.Model.Handler
+import Qhttp.Lemmas.RouteSingle
 /-
-  `QString::arg` applied once per capture (`substitute`) as a rewriting of the TOKEN list of the
-  template: when does re-reading the string after one round give the intended token list?
+  LEGACY ANALYSIS (finding D12, repaired): `QString::arg` applied once per capture
+  (`substituteChained`, what `Handler::route` did before the repair) as a rewriting of the TOKEN
+  list of the template: when does re-reading the string after one round give the intended token
+  list?  The repaired code (`substitute`) needs none of this; the results here say exactly where
+  the repair changed nothing (`C05.substitute_eq_chained`).
 
   * `render`, `expand`, `expandAll` : the intended token-level meaning of the rounds;
-  * `Rescans` / `MarkerFree`        : the exact (decidable) side condition, round by round:
+  * `Rescans` / `MarkerFree`        : the exact (decidable) condition, round by round:
                                       "what the next `arg` call reads is what the previous one meant";
-  * `substitute_eq_render`          : under it, `substitute` is the token-level rewriting;
+  * `substituteChained_eq_render`   : under it, the chained calls are the token-level rewriting;
   * `sepScan` / `Separated` / `Plain`: a syntactic sufficient condition (template markers are not
                                       glued to a pending '%' / '%L' / a higher one-digit marker;
                                       captures read as literals and end outside a '%' sequence);
@@ -15,6 +19,10 @@ import Qhttp.Model.Handler
 namespace Qhttp.RouteL
 open Qhttp
 set_option linter.unusedSimpArgs false
+
+/-- what `Handler::route` did before the repair of D12:
+    `foreach (replacement, capturedTexts().mid(1)) newPath = newPath.arg(replacement)` -/
+def substituteChained (tmpl : QStr) (caps : List QStr) : QStr := caps.foldl qarg tmpl
 
 /-- the string a token list spells -/
 def render : List ArgTok → QStr
@@ -47,7 +55,7 @@ def Rescans : List ArgTok → List QStr → Bool
       (as.isEmpty || argScan .normal (argFill n a toks) == expand n a toks) &&
         Rescans (expand n a toks) as
 
-/-- the exact side condition of `substitute = simultaneous substitution` (known finding D12 is its
+/-- the exact condition of `chained arg() = simultaneous substitution` (finding D12 was its
     negation): no round creates, destroys or renumbers a place marker for a later round -/
 def MarkerFree (tmpl : QStr) (caps : List QStr) : Bool := Rescans (argScan .normal tmpl) caps
 
@@ -118,7 +126,7 @@ theorem render_argScan (st : ArgSt) (s : QStr) : render (argScan st s) = pend st
 theorem render_argScan_normal (s : QStr) : render (argScan .normal s) = s := by
   simpa [pend] using render_argScan .normal s
 
-/-! ### `substitute` is the token-level rewriting when every round reads back -/
+/-! ### the chained calls are the token-level rewriting when every round reads back -/
 
 theorem foldl_qarg_noEsc (s : QStr) (h : minEsc (argScan .normal s) = none) (caps : List QStr) :
     caps.foldl qarg s = s := by
@@ -152,9 +160,9 @@ theorem foldl_qarg_eq_render (caps : List QStr) :
         have := ih (argFill n a (argScan .normal s)) (by rw [hr]; exact h.2)
         rw [this, hr]
 
-/-- `substitute` under the exact side condition -/
-theorem substitute_eq_render (tmpl : QStr) (caps : List QStr) (h : MarkerFree tmpl caps = true) :
-    substitute tmpl caps = render (expandAll (argScan .normal tmpl) caps) :=
+/-- the chained calls under the exact side condition -/
+theorem substituteChained_eq_render (tmpl : QStr) (caps : List QStr) (h : MarkerFree tmpl caps = true) :
+    substituteChained tmpl caps = render (expandAll (argScan .normal tmpl) caps) :=
   foldl_qarg_eq_render caps tmpl h
 
 /-! ### the lowest marker -/
@@ -212,13 +220,13 @@ def isDig (c : UInt16) : Bool := (digit16 c).isSome
     token that is not a marker spelling -/
 def escNext (k : Nat) (raw : QStr) : Option ArgSt :=
   match raw with
-  | [p, d] => if p = 37 ∧ isDig d = true ∧ k = d.toNat - 48 then some (.d1 false d) else none
+  | [p, d] => if p = 37 ∧ isDig d = true ∧ k = dval d then some (.d1 false d) else none
   | [p, x, y] =>
-    if p = 37 ∧ x = 76 ∧ isDig y = true ∧ k = y.toNat - 48 then some (.d1 true y)
-    else if p = 37 ∧ isDig x = true ∧ isDig y = true ∧ k = 10 * (x.toNat - 48) + (y.toNat - 48) then some .normal
+    if p = 37 ∧ x = 76 ∧ isDig y = true ∧ k = dval y then some (.d1 true y)
+    else if p = 37 ∧ isDig x = true ∧ isDig y = true ∧ k = 10 * dval x + dval y then some .normal
     else none
   | [p, l, x, y] =>
-    if p = 37 ∧ l = 76 ∧ isDig x = true ∧ isDig y = true ∧ k = 10 * (x.toNat - 48) + (y.toNat - 48) then some .normal
+    if p = 37 ∧ l = 76 ∧ isDig x = true ∧ isDig y = true ∧ k = 10 * dval x + dval y then some .normal
     else none
   | _ => none
 
@@ -237,7 +245,7 @@ def sepScan : ArgSt → List ArgTok → Bool
     | .pctL => if isDig c then false else sepScan (litNext c) l
     | .d1 _ _ => if isDig c then false else sepScan (litNext c) l
   | st, .esc k raw :: l =>
-    (match st with | .normal => true | .d1 _ d => decide (d.toNat - 48 ≤ k) | _ => false) &&
+    (match st with | .normal => true | .d1 _ d => decide (dval d ≤ k) | _ => false) &&
     match escNext k raw with
     | some st' => sepScan st' l
     | none => false
@@ -265,14 +273,10 @@ def pendTok : ArgSt → List ArgTok
   | .normal => []
   | .pct => [.lit 37]
   | .pctL => [.lit 37, .lit 76]
-  | .d1 loc d => [.esc (d.toNat - 48) (rawOf loc [d])]
+  | .d1 loc d => [.esc (dval d) (rawOf loc [d])]
 
 theorem isDig_ne {c : UInt16} (h : isDig c = true) : c ≠ 37 ∧ c ≠ 76 := by
-  simp only [isDig, digit16] at h
-  split at h
-  · next hc =>
-    constructor <;> (intro e; subst e; revert hc; decide)
-  · simp at h
+  constructor <;> (intro e; subst e; revert h; decide)
 
 theorem isDig_iff (c : UInt16) : (digit16 c).isSome = isDig c := rfl
 
@@ -359,7 +363,7 @@ theorem argScan_render (toks : List ArgTok) :
           · simp only [hd, if_false] at h
             have hd' : (digit16 c).isSome = false := by simpa [isDig] using hd
             by_cases hc : c = 37
-            · simp only [hc, if_true] at h; simp [argScan, hc, ih _ h, pendTok, digit16]
+            · simp only [hc, if_true] at h; simp [argScan, hc, ih _ h, pendTok, digit16_pct]
             · simp only [hc, if_false] at h; simp [argScan, hc, hL, hd', ih _ h, pendTok]
       | pctL =>
         simp only [sepScan, litNext] at h
@@ -368,7 +372,7 @@ theorem argScan_render (toks : List ArgTok) :
         · simp only [hd, if_false] at h
           have hd' : (digit16 c).isSome = false := by simpa [isDig] using hd
           by_cases hc : c = 37
-          · simp only [hc, if_true] at h; simp [argScan, hc, ih _ h, pendTok, digit16]
+          · simp only [hc, if_true] at h; simp [argScan, hc, ih _ h, pendTok, digit16_pct]
           · simp only [hc, if_false] at h; simp [argScan, hc, hd', ih _ h, pendTok]
       | d1 loc d =>
         simp only [sepScan, litNext] at h
@@ -377,7 +381,7 @@ theorem argScan_render (toks : List ArgTok) :
         · simp only [hd, if_false] at h
           have hd' : (digit16 c).isSome = false := by simpa [isDig] using hd
           by_cases hc : c = 37
-          · simp only [hc, if_true] at h; simp [argScan, hc, ih _ h, pendTok, digit16]
+          · simp only [hc, if_true] at h; simp [argScan, hc, ih _ h, pendTok, digit16_pct]
           · simp only [hc, if_false] at h; simp [argScan, hc, hd', ih _ h, pendTok]
     | esc k raw =>
       simp only [sepScan, Bool.and_eq_true] at h
@@ -397,7 +401,7 @@ theorem argScan_render (toks : List ArgTok) :
           obtain ⟨r, hr⟩ := escNext_head hx
           have hN' := hN
           simp only [render, hr, List.cons_append, argScan, if_true] at hN' ⊢
-          simp [digit16, hN', pendTok, hr]
+          simp [digit16_pct, hN', pendTok, hr]
 
 theorem noEsc_d1 (loc : Bool) (d : UInt16) (s : QStr) : noEsc (argScan (.d1 loc d) s) = false := by
   cases s with
@@ -440,7 +444,7 @@ theorem sepScan_lits (a : QStr) (l : List ArgTok) :
           by_cases hc : c = 37
           · simp only [hc, if_true]
             apply ih _ (by simp)
-            simpa [argScan, hc, digit16, noEsc] using hne
+            simpa [argScan, hc, digit16_pct, noEsc] using hne
           · simp only [hc, if_false]
             apply ih _ (by simp)
             simpa [argScan, hc, hL, hd', noEsc] using hne
@@ -454,7 +458,7 @@ theorem sepScan_lits (a : QStr) (l : List ArgTok) :
         by_cases hc : c = 37
         · simp only [hc, if_true]
           apply ih _ (by simp)
-          simpa [argScan, hc, digit16, noEsc] using hne
+          simpa [argScan, hc, digit16_pct, noEsc] using hne
         · simp only [hc, if_false]
           apply ih _ (by simp)
           simpa [argScan, hc, hd', noEsc] using hne
@@ -469,13 +473,13 @@ theorem litNext_cases (c : UInt16) : litNext c = .normal ∨ litNext c = .pct :=
 
 /-- the relation between the scanner state of the old token list and of the expanded one -/
 def StRel (n : Nat) (st st' : ArgSt) : Prop :=
-  st' = .normal ∨ (st' = st ∧ ∀ loc d, st = .d1 loc d → n < d.toNat - 48)
+  st' = .normal ∨ (st' = st ∧ ∀ loc d, st = .d1 loc d → n < dval d)
 
 theorem StRel.refl_of_lit (n : Nat) (c : UInt16) : StRel n (litNext c) (litNext c) := by
   right; refine ⟨rfl, ?_⟩; intro loc d h; rcases litNext_cases c with e | e <;> simp [e] at h
 
 theorem escNext_d1 {k : Nat} {raw : QStr} {loc : Bool} {d : UInt16} (h : escNext k raw = some (.d1 loc d)) :
-    k = d.toNat - 48 := by
+    k = dval d := by
   unfold escNext at h
   split at h
   · split at h
